@@ -98,12 +98,12 @@ def _scenario(inp):
 
     if inp["kind"] == "single":
         assert ntomo == 1
-        return SubtomogramLoader(wrap(tomos[0]), Molecules(mol_pos, features={"g": (np.arange(n) % 3)}),
+        return SubtomogramLoader(wrap(tomos[0]), Molecules(mol_pos, features={"g": ((2 * np.arange(n) + 2) % 3)}),     # first appearances 2, 1, 0
                                  order=0, output_shape=(box,) * 3), tomos, mol_pos, mol_id
     b = BatchLoader(order=0, output_shape=(box,) * 3)
     for t in range(ntomo):
         sel = [i for i in range(n) if mol_id[i] == t]
-        b.add_tomogram(wrap(tomos[t]), Molecules(mol_pos[sel], features={"tag": sel, "g": [i % 3 for i in sel]}), t)
+        b.add_tomogram(wrap(tomos[t]), Molecules(mol_pos[sel], features={"tag": sel, "g": [(2 * i + 2) % 3 for i in sel]}), t)
     if inp["interleave"]:
         b = b.replace(molecules=b.molecules.sort("tag"))
     return b, tomos, mol_pos, mol_id
